@@ -298,6 +298,24 @@ def fold(formula: T, assign: Callable[[T], Optional[bool]]) -> Optional[bool]:
     return seen
 
 
+def restrict(formula: T, assign: Callable[[T], Optional[bool]]) -> T:
+    """the residual formula after fixing some atoms (cofactor): assigned
+    atoms are replaced by constants and the boolean structure is rebuilt and
+    simplified; unassigned atoms stay"""
+    if is_const(formula):
+        return formula
+    v = assign(formula)
+    if v is not None:
+        return const(bool(v))
+    if formula.op == "not":
+        return mk_not(restrict(formula.args[0], assign))
+    if formula.op == "and":
+        return mk_and(*[restrict(a, assign) for a in formula.args])
+    if formula.op == "or":
+        return mk_or(*[restrict(a, assign) for a in formula.args])
+    return formula
+
+
 def _free_atoms(formula: T, assign, out: list) -> None:
     if is_const(formula) or assign(formula) is not None:
         return
